@@ -37,7 +37,7 @@ COMPONENTS = {
              "cutplace.checks", "csv", "io.TextIOWrapper/BufferedWriter/StringIO"],
     "stub": ["SimFS/SimRaw (short writes)", "os.linesep seam", "client"],
 }
-PROBES_REQUIRED = ["same-row-object-written-again", "cid-given-as-path", "write_rows-with-one-shot-iterator", "unencodable-row", "write_rows-batch", "rejection-then-acceptance", "duplicate-of-rejected-row", "wrong-item-count", "bad-cell", "duplicate",
+PROBES_REQUIRED = ["with-block-left-by-a-rejection", "same-row-object-written-again", "cid-given-as-path", "write_rows-with-one-shot-iterator", "unencodable-row", "write_rows-batch", "rejection-then-acceptance", "duplicate-of-rejected-row", "wrong-item-count", "bad-cell", "duplicate",
                    "linesep-crlf-with-any", "delimiter:none", "delimiter:any", "delimiter:crlf", "target:path",
                    "target:stream", "header-row-written", "end-check-fails"]
 EOLS = {"lf": "\n", "cr": "\r", "crlf": "\r\n"}
@@ -112,7 +112,8 @@ def generate(seed, tier):
     return {"io": config, "cid": spec, "rows": rows, "batches": batches, "target": swarm.choice(["stream", "path"]),
             "close": True, "cid_as_path": swarm.random() < 0.2, "rows_as_iterator": swarm.random() < 0.5,
             # the caller keeps one list object per distinct row and hands the same object over again for a repeated row
-            "reuse_row_objects": swarm.random() < 0.4, "target_exists": swarm.random() < 0.3}
+            "reuse_row_objects": swarm.random() < 0.4, "target_exists": swarm.random() < 0.3,
+            "with_block": swarm.random() < 0.2}
 
 
 def _encodable(row, encoding):
@@ -135,9 +136,87 @@ def _expected_record(spec, row, linesep):
     return None
 
 
+def _execute_with_block(scenario):
+    """The writer used as a context manager: the first rejected row leaves the block as an exception.  What was
+    accepted before it must be in the output once the block is left, however it is left."""
+    from cutplace import errors, rowio, validio
+
+    result = core.Result()
+    history = core.History()
+    spec = scenario["cid"]
+    fmt = spec["format"]
+    rows = scenario["rows"]
+    header = spec.get("header", 0)
+    fs = simfs.SimFS(simfs.IoConfig.from_dict(scenario["io"]))
+    features = ["format=" + fmt, "with-block"]
+    to_path = scenario.get("target") == "path"
+    with simfs.Seams(fs):
+        cid = lib.load_cid(tabular.cid_rows(spec))
+        stream = io.StringIO(newline="")
+        target = "out.txt" if to_path else stream
+        written = []
+
+        def job():
+            with validio.Writer(cid, target) as writer:
+                for row in rows:
+                    writer.write_row(list(row))
+                    written.append(row)
+
+        status, value = lib.call(job)
+        # the model: header rows pass, data rows up to the first one that is rejected
+        expected, stopped_by = list(rows[:header]), None
+        for index, row in enumerate(rows[header:]):
+            item = tabular.RefReader(dict(spec, header=0), rows[header:header + index + 1]).items()[-1]
+            if item[0] == "err" or (to_path and not _encodable(row, spec.get("encoding", "utf-8"))):
+                stopped_by = row
+                break
+            expected.append(row)
+        history.add("client", "with-block", {"status": status, "written": written,
+                                             "error": None if status == "ok" else lib.error_summary(value)})
+        result.probe("writer-as-context-manager")
+        if stopped_by is not None:
+            result.probe("with-block-left-by-a-rejection")
+            if status == "ok":
+                raise core.Violation("non-conforming-row-written", features, "row %r should have been rejected" % (stopped_by,))
+            if not isinstance(value, errors.CutplaceError):
+                raise core.Violation("rejection-is-not-a-cutplace-error", features + ["class=" + type(value).__name__], repr(value))
+        elif status == "exc" and not isinstance(value, errors.CheckError):
+            raise core.Violation("conforming-row-rejected", features, "rows %r: %r" % (rows, lib.error_summary(value)))
+        if to_path:
+            data = fs.files.get("out.txt")
+            if data is None:
+                raise core.Violation("output-did-not-reach-the-target", features + ["target=path"], "nothing was stored at the target path")
+            text = bytes(data).decode(spec.get("encoding", "utf-8"))
+        else:
+            text = stream.getvalue() if not stream.closed else None
+            if text is None:
+                raise core.Violation("caller-stream-closed-by-cutplace", features, "the target stream is closed after the block")
+        status, parsed = lib.call(lambda: list(
+            rowio.delimited_rows(io.StringIO(text, newline=""), cid.data_format) if fmt == "delimited" else
+            rowio.fixed_rows(io.StringIO(text, newline=""), "utf-8", [(field["name"], width) for field, width in zip(
+                spec["fields"], tabular.widths(spec))], cid.data_format.line_delimiter)))
+        wanted = expected if fmt == "delimited" else [[cell.ljust(width) for cell, width in zip(row, tabular.widths(spec))]
+                                                       for row in expected]
+    result.nontrivial = len(rows) > header
+    result.schedule_sig = [fmt, "with-block", scenario.get("target"), stopped_by is not None, len(expected)]
+    result.ticks = history.ticks + fs.ticks
+    result.digest = history.digest()
+    result.trace = {"rows": rows[:6], "output": text[:200]}
+    if status == "exc" or parsed != wanted:
+        raise core.Violation("output-after-with-block-differs", features + ["target=" + str(scenario.get("target"))],
+                             "accepted before the block was left: %r; output %r reads as %r" % (
+                                 expected, text, parsed if status == "ok" else lib.error_summary(parsed)))
+    return result
+
+
 def execute(scenario):
     from cutplace import errors, rowio
 
+    if scenario.get("with_block") and not scenario["cid"].get("props") and \
+            all(len(row) == len(scenario["cid"]["fields"]) for row in scenario["rows"]):
+        # (the two known defects that need a data format property are judged in the plain flow only; rows of the
+        # wrong length are a precondition violation of write_row(), which the plain flow offers one by one)
+        return _execute_with_block(scenario)
     result = core.Result()
     history = core.History()
     spec = scenario["cid"]
